@@ -11,7 +11,7 @@ class C14(Prop):
     id = 'C14'
     lean_modules = ['RSocketModel.Props.C14', 'RSocketModel.Props.C14Source', 'RSocketModel.Props.C05Sites', 'RSocketModel.Props.C13Endpoints']
     technique = 'Lean 4 proof (invariant over all LEASE/request histories at any virtual times: held requests imply a spent lease) + differential correspondence under a virtual clock'
-    level_text = ('c14_allow_matches_source (Props/C14Source.lean): the lease test of the model (Lease.allow) is proved equal, for every lease state and instant, to DefinedLease._is_request_allowed as compiled from rsocket/lease.py into Lean on every run (Gen/LeaseFn.lean); c14_source_expired_refuses / c14_source_live_allows_iff are read off the compiled function itself. c14_none_before_first_lease, c14_at_most_granted(_count), c14_none_after_ttl, c14_fifo_once, c14_retained_up_to_capacity, c14_no_request_lost (over every history the sent, held and refused tags are exactly the requests made) c14_lease_reserved_bits_ignored / c14_lease_fields_below_2_31 (codec model: a received LEASE grants its two words modulo 2^31) and c14_announce_exact are kernel-checked on a '
+    level_text = ('c14_allow_matches_source (Props/C14Source.lean): the lease test of the model (Lease.allow) is proved equal, for every lease state and instant, to DefinedLease._is_request_allowed as compiled from rsocket/lease.py into Lean on every run (Gen/LeaseFn.lean); c14_source_expired_refuses / c14_source_live_allows_iff are read off the compiled function itself; c14_drain_matches_source: the release loop of handle_lease, compiled from rsocket_base.py as a fuel-bounded recursion (Gen/LeaseDrainFn.lean), ends like the drain of the model for every lease, instant and queue (induction on the queue). c14_none_before_first_lease, c14_at_most_granted(_count), c14_none_after_ttl, c14_fifo_once, c14_retained_up_to_capacity, c14_no_request_lost (over every history the sent, held and refused tags are exactly the requests made) c14_lease_reserved_bits_ignored / c14_lease_fields_below_2_31 (codec model: a received LEASE grants its two words modulo 2^31) and c14_announce_exact are kernel-checked on a '
                   'transcription of DefinedLease/_is_request_allowed, send_request and handle_lease; the model is run against a real client that honours leases, with time supplied by the '
                   'harness, and against a real server with a scripted lease publisher.')
     level_note = 'Trusted: Lean kernel + standard axioms; datetime arithmetic; the virtual clock patches rsocket.lease.datetime.'
